@@ -113,7 +113,7 @@ func unitOf(id, label string, mbs []msgBuilder) Unit {
 		}
 	}
 	f := baseFile(id, deps)
-	f.Enum("TopEnum", "TOP_ZERO", 0, "TOP_ONE", 1)
+	f.Enum("TopEnum", "TOP_ZERO", 0, "TOP_TWO", 2, "TOP_ONE", 1) // dense numbers, declared out of number order
 	te := f.P.EnumType[len(f.P.EnumType)-1]
 	te.ReservedRange = []*descriptorpb.EnumDescriptorProto_EnumReservedRange{{Start: proto.Int32(5), End: proto.Int32(9)}}
 	te.ReservedName = []string{"TOP_RETIRED"}
